@@ -56,8 +56,7 @@ AncestrySeq(K, n) == IF ParOf(K, n) = NULL THEN <<n>> ELSE Append(AncestrySeq(K,
 CanAttach(K, p, c) == ~Listed(K, c) /\ p \notin Desc(K, c)
 
 (* structural invariants of the model itself *)
-NoSharing(K) == \A c \in DOMAIN K :
-                  Cardinality({<<p, i>> \in (DOMAIN K) \X (1..Len(K)) : i <= Len(K[p]) /\ K[p][i] = c}) <= 1
+NoSharing(K) == LET all == Flat(K) IN Cardinality(Range(all)) = Len(all)     \* no node is listed twice anywhere
 RECURSIVE ReachesSelf(_, _, _)
 ReachesSelf(K, n, fuel) == IF fuel = 0 THEN TRUE
                            ELSE \E i \in 1..Len(K[n]) : ReachesSelf(K, K[n][i], fuel - 1)
